@@ -193,8 +193,9 @@ Section RenderWalk.
     end.
 
   (* the call made by to_string / to_pretty_string: container_to_string(value, &mut 0, ..); every nested header
-     lies at least 4 bytes after the one of its parent and is read before anything else, so S (length V) levels
-     are never used up *)
+     lies at least 4 bytes after the one of its parent and every loop iteration reads an entry word 4 bytes further,
+     so neither the S (length V) levels nor the S (length V) iterations are ever used up, on any buffer
+     (RenderWalkProofs.render_w_not_fuel) *)
   Definition render_w : res (list N) := container_str_w (scalar_str_w (S (length V))) 0 0.
 End RenderWalk.
 
